@@ -504,6 +504,14 @@ func (x *Exec) loopEntry(li *loopInfo, phiVal func(*ssa.Phi, func(*ssa.BasicBloc
 		}
 		li.spec = &LoopSpec{}
 	}
+	if x.fc != nil {
+		for _, at := range x.fc.Ats {
+			if at.What == "loopenter" && at.Pattern == fmt.Sprint(li.ordinal) {
+				at.Used = true
+				x.applyUpdatesGuarded(at, map[string]Val{}, "true")
+			}
+		}
+	}
 	preLoop := x.st.clone()
 	for _, c := range li.spec.Invariants {
 		t := x.evalBool(c.Expr, x.envAt(nil), c)
@@ -647,7 +655,10 @@ func (x *Exec) loopModset(li *loopInfo) map[string]string {
 				add(v, "new")
 			case *ssa.Next:
 				if rg, ok := in.Iter.(*ssa.Range); ok {
-					add(fmt.Sprintf("L:iter_%s_%d", sanitize(rg.Name()), rg.Block().Index), "any")
+					k := fmt.Sprintf("L:iter_%s_%d", sanitize(rg.Name()), rg.Block().Index)
+					if _, known := e.heapSort[k]; known { // iterators created inside the loop are re-initialised there
+						add(k, "any")
+					}
 				}
 			case *ssa.MakeClosure, *ssa.MakeChan:
 				add("brk", "any")
@@ -940,6 +951,7 @@ func (x *Exec) instr(in ssa.Instruction) {
 		}
 		nl.Path = append(append([]PathElem(nil), l.Path...), e.fieldElem(cur, in.Field))
 		x.vals[in] = Val{Sort: "Int", GT: in.Type(), Loc: &nl, T: ""}
+		x.lockDiscipline(in, l, cur)
 	case *ssa.Field:
 		sv := x.val(in.X)
 		si := e.structs[sv.Sort]
@@ -1023,7 +1035,6 @@ func (x *Exec) instr(in ssa.Instruction) {
 	case *ssa.MakeChan:
 		r := e.alloc(x.st)
 		x.vals[in] = Val{T: r, Sort: "Int", GT: in.Type()}
-		e.decl("(declare-fun chanCap (Int) Int)")
 		e.assume(x.guard, fmt.Sprintf("(= (chanCap %s) %s)", r, x.val(in.Size).T))
 	case *ssa.Slice:
 		x.sliceInstr(in)
@@ -1275,6 +1286,39 @@ func (x *Exec) pureApply(fn *ssa.Function, id string) {
 	}
 }
 
+// lockDiscipline: `opt guarded FIELD MUTEX [TAGS]` - every access to FIELD of
+// the struct must happen with the struct's MUTEX held (ghost lock depth > 0).
+func (x *Exec) lockDiscipline(in *ssa.FieldAddr, base *Loc, structSort string) {
+	if x.fc == nil || x.fc.Opts["guarded"] == "" {
+		return
+	}
+	f := strings.Fields(x.fc.Opts["guarded"])
+	if len(f) < 2 {
+		return
+	}
+	e := x.enc
+	si := e.structs[structSort]
+	if si == nil || si.FNames[in.Field] != f[0] {
+		return
+	}
+	mi := -1
+	for i, n := range si.FNames {
+		if n == f[1] {
+			mi = i
+		}
+	}
+	if mi < 0 {
+		return
+	}
+	ml := *base
+	ml.Path = append(append([]PathElem(nil), base.Path...), e.fieldElem(structSort, mi))
+	mu := x.materialize(Val{Sort: "Int", Loc: &ml})
+	tags := optTags(x.fc.Opts["guarded"])
+	depth := x.ghostLoad("lockDepth", x.st)
+	x.oblige("lock", "held-"+f[1]+"-for-"+f[0], tags, len(tags) == 0, fmt.Sprintf("(> (select %s %s) 0)", depth.T, mu.T),
+		fmt.Sprintf("access to %s requires %s to be held", f[0], f[1]), x.pos(in.Pos()))
+}
+
 // globalVal: package-level variables are treated as immutable constants.
 func (x *Exec) globalVal(g *ssa.Global) Val {
 	e := x.enc
@@ -1448,6 +1492,12 @@ func (x *Exec) assignKey(s string) assignItem {
 		it.key = "brk"
 	case strings.HasPrefix(s, "ghost."):
 		it.key = x.ghostKey(s[6:])
+	case strings.HasPrefix(s, "key(") && strings.HasSuffix(s, ")"):
+		// a heap component named directly (map components have no Go type name)
+		it.key = s[4 : len(s)-1]
+		if _, ok := e.heapSort[it.key]; !ok {
+			x.fail("assigns: unknown heap component %s", it.key)
+		}
 	case strings.HasPrefix(s, "heap(") && strings.HasSuffix(s, ")"):
 		t := e.prog.lookupType(s[5 : len(s)-1])
 		if t == nil {
@@ -1484,6 +1534,22 @@ func (x *Exec) returnInstr(in *ssa.Return) {
 	for _, r := range in.Results {
 		rs = append(rs, x.materialize(x.val(r)))
 	}
+	// ghost code at return: `at return all: ghost.x = e` (may mention results)
+	for _, at := range x.fc.Ats {
+		if at.What != "return" {
+			continue
+		}
+		at.Used = true
+		for _, u := range at.Updates {
+			env := x.envAt(rs)
+			v := x.eval(u.Expr, env)
+			k := x.ghostKey(u.Name)
+			if _, ok := e0(x).heapSort[k]; !ok {
+				x.ghostLoad(u.Name, x.st)
+			}
+			e0(x).heapSet(x.st, k, v.T)
+		}
+	}
 	env := x.envAt(rs)
 	for _, c := range x.fc.Ensures {
 		t := x.evalBool(c.Expr, env, c)
@@ -1499,6 +1565,8 @@ func (x *Exec) returnInstr(in *ssa.Return) {
 		}
 	}
 }
+
+func e0(x *Exec) *Enc { return x.enc }
 
 func (x *Exec) makeInterface(in *ssa.MakeInterface) {
 	e := x.enc
@@ -1711,6 +1779,9 @@ func (x *Exec) lookup(in *ssa.Lookup) {
 	present := fmt.Sprintf("(and (not (= %s 0)) (select (select %s %s) %s))", m.T, e.heapGet(x.st, dom), m.T, k.T)
 	v := ite(present, fmt.Sprintf("(select (select %s %s) %s)", e.heapGet(x.st, val), m.T, k.T), e.zeroSort(vs, mt.Elem()))
 	vn := e.define(in.Name(), vs, v)
+	for _, f := range e.typeFacts(vn, mt.Elem(), x.brk(), 1) {
+		e.assume(x.guard, f)
+	}
 	if in.CommaOk {
 		okn := e.define(in.Name()+"_ok", "Bool", present)
 		x.vals[in] = Val{Tup: []Val{{T: vn, Sort: vs, GT: mt.Elem()}, {T: okn, Sort: "Bool", GT: types.Typ[types.Bool]}}, Sort: "Tuple", GT: in.Type()}
